@@ -15,6 +15,8 @@
      (AssertionError if a left-over statement can now be inferred) and RuntimeError.
    * a subscripted assignment only sets its loop variables and is dropped (`continue`),
      which does not count as progress.
+   * loop variables are registered only when their statement is popped (switch
+     c_loops_prepass: also up front, for all statements, right after the forced kinds).
    * the closing consistency loop evaluates every `stmt.expression` (not flattened) once more
      with check=False (make_kim ignores its `check` argument) and lets exceptions escape.
 
@@ -30,6 +32,7 @@ Record cfg := {
   c_arr_int : bool;            (* unify: Array branch accepts Integer *)
   c_ins_changed : bool;        (* set: inserting a new name sets _changed *)
   c_set_raises : bool;         (* set: a failing unification is re-raised *)
+  c_loops_prepass : bool;      (* finder: loop variables are registered before the work-list loop *)
   c_is_state : string -> bool; (* dagrt.utils.is_state_variable *)
   c_init_global : list string  (* names preset to Scalar(is_real_valued=True) in SymbolKindTable.__init__ *)
 }.
@@ -295,12 +298,27 @@ Definition init_state (c : cfg) : tstate :=
   {| tbl := map (fun x => ((None, x), Some (KScalar true))) (c_init_global c);
      changed := false; swallowed := false |}.
 
+(* switch c_loops_prepass: `for phase_name, phase in zip(names, phases): for stmt in phase:
+   ... for ident, _, _ in stmt.loops: result.set(phase_name, ident, kind=Integer())` *)
+Fixpoint prepass (c : cfg) (st : tstate) (l : list qitem) : res tstate :=
+  match l with
+  | [] => Ok st
+  | it :: r => match set_loops c st (fst it) (b_loops (snd it)) with
+               | Ok st' => prepass c st' r
+               | Err e => Err e
+               end
+  end.
+
 (* SymbolKindFinder.__call__ on the flat list of (phase_name, stmt) in program order *)
 Definition run_queue (c : cfg) (fuel : nat) (forced : list (string * string * okind))
                      (all : list qitem) : outcome :=
   match set_forced c (init_state c) forced with
   | Err e => OErr e
-  | Ok st => outer c fuel st all
+  | Ok st =>
+      match (if c_loops_prepass c then prepass c st all else Ok st) with
+      | Err e => OErr e
+      | Ok st' => outer c fuel st' all
+      end
   end.
 
 Definition queue_of (phases : list (string * list bstmt)) : list qitem :=
